@@ -768,22 +768,32 @@ func (ls *LState) where(level int, skipg bool) string {
 func (ls *LState) stackTrace(level int) string {
 	buf := []string{}
 	header := "stack traceback:"
+	dropped := 0 // tail call lines among the first level lines that were not generated at all
 	if ls.currentFrame != nil {
 		i := 0
 		for dbg, ok := ls.GetStack(i); ok; dbg, ok = ls.GetStack(i) {
 			cf := dbg.frame
 			buf = append(buf, fmt.Sprintf("\t%v in %v", ls.Where(i), ls.formattedFrameFuncName(cf)))
 			if !cf.Fn.IsG && cf.TailCall > 0 {
-				for tc := cf.TailCall; tc > 0; tc-- {
-					buf = append(buf, "\t(tailcall): ?")
-					i++
+				// one line for every lost tail call, but of a long run only as many as can appear below
+				// (the first level lines are dropped, then 7 lines from either end are kept): the
+				// lines left out here are lines that would be cut out anyway, and a loop of ten
+				// million tail calls does not cost ten million strings for every error
+				tc := cf.TailCall
+				if drop := intMin(tc, level-dropped-len(buf)); drop > 0 {
+					dropped += drop
+					tc -= drop
 				}
+				for n := intMin(tc, 21); n > 0; n-- {
+					buf = append(buf, "\t(tailcall): ?")
+				}
+				i += cf.TailCall
 			}
 			i++
 		}
 	}
 	buf = append(buf, fmt.Sprintf("\t%v: %v", "[G]", "?"))
-	buf = buf[intMax(0, intMin(level, len(buf))):len(buf)]
+	buf = buf[intMax(0, intMin(level-dropped, len(buf))):len(buf)]
 	if len(buf) > 20 {
 		newbuf := make([]string, 0, 20)
 		newbuf = append(newbuf, buf[0:7]...)
